@@ -46,7 +46,12 @@ RULE = (
     "relative_entropy, information, pairwise_jsd, score_seq, str) (sub-check profile). Alphabets, moltypes, genetic codes and every registered "
     "substitution model (plus keyword variants and user defined predicate models) are enumerated. Each object is observed, sent "
     "through to_json -> deserialise_object, to_rich_dict -> deserialise_object and pickle, and observed again; observations must be "
-    "equal (floats of likelihood functions within 1e-9 relative). Registry keys without a generator are reported as classes "
+    "equal (floats of likelihood functions within 1e-9 relative). Codon models are also built for non-standard genetic codes "
+    "(get_model(name, gc=k), k in 2, 4, 6, 12 and an explicit 1; GY94, Y98, CNFGTR, MG94GTR and the non-reversible GNC in the models sub-check, "
+    "GY94 / CNFGTR / MG94GTR likelihood functions with histories in lf_families) with alignments that hold a codon which is a sense codon only in that "
+    "code (or, code 12, one translated differently): through to_json, to_rich_dict, pickle, copy.copy (models) and copy.deepcopy the copy must have "
+    "the same genetic code (ID, name, 64-codon table), the same states, parameter values, psubs and lnL; the code is compared first and a copy with "
+    "another code is reported once per route (<route>/genetic-code) without applying the remaining observers. Registry keys without a generator are reported as classes "
     "'uncovered:<key>'. Non-trivial = the object is not freshly constructed (history length >= 1, or derived alphabet / keyword "
     "variant model); distinct = distinct case encodings."
 )
@@ -75,6 +80,10 @@ ASSUMPTIONS = [
     "codon likelihood functions of lf_families are sent through JSON and pickle only (the rich-dict route is the JSON route without the text encoding; each copy rebuilds the codon model, 1-3 s); "
     "codon alignments consist of sense codons and whole-codon gaps; substitution model instances of lf_families are built once per process and shared (a likelihood function does not modify its model); "
     "H04G / H04GK / H04GGK are not used there (known finding: aliased predicates)",
+    "codon models with a genetic code: get_model(name, **kw) hands gc to TimeReversibleCodon / NonReversibleCodon (parameter 'gc', genetic_code.get_code: number, name or code object); the code is part of "
+    "the model's state in the sense of the property (it fixes the states and which exchanges are silent / replacement), so it is observed through model.gc (ID, name, translation of all 64 codons) and "
+    "get_motifs(); copy.copy / copy.deepcopy are treated as routes of these models and likelihood functions (they use the pickle protocol; copy.copy of a likelihood function would share its state and "
+    "is not used); a model built with a user-made GeneticCode object (no NCBI id) is not generated",
 ]
 
 ROUTES = ("json", "rich_dict", "pickle")
@@ -210,6 +219,10 @@ def send(s: Soft, sig: str, obj, route: str):
         except Exception as e:  # noqa: BLE001
             s.fail(f"{sig}/pickle/deserialise/raises:{type(e).__name__}@{exception_site(e)}", f"{type(e).__name__}: {e}")
             return False, None
+    if route in ("copy", "deepcopy"):
+        import copy
+
+        return s.call(f"{sig}/{route}/serialise", copy.copy if route == "copy" else copy.deepcopy, obj)
     raise HarnessError(f"unknown route {route}")
 
 
@@ -238,14 +251,18 @@ def mark_unobs(s: Soft, want: dict):
             s.cls("original-unobservable:" + key)
 
 
-def round_trips(s: Soft, sig: str, obj, observers, what: str, routes=ROUTES, rtol=0.0, atol=0.0, skip_by_route=None, want=None):
-    """observe obj, send it through the routes, compare; returns the observation of the original"""
+def round_trips(s: Soft, sig: str, obj, observers, what: str, routes=ROUTES, rtol=0.0, atol=0.0, skip_by_route=None, want=None, gate=None):
+    """observe obj, send it through the routes, compare; returns the observation of the original.  ``gate``: observers
+    compared first; when they differ on a copy the remaining observers are not applied to it (one signature per cause)"""
     if want is None:
         want = observe(obj, observers)
     mark_unobs(s, want)
+    gate_want = observe(obj, gate) if gate else None
     for route in routes:
         ok, cp = send(s, sig, obj, route)
         if not ok:
+            continue
+        if gate and not compare(s, f"{sig}/{route}", gate_want, observe(cp, gate), what):
             continue
         got = observe(cp, observers)
         compare(s, f"{sig}/{route}", want, got, what, rtol, atol, skip=(skip_by_route or {}).get(route, ()))
@@ -1604,7 +1621,24 @@ MODEL_VARIANTS = [
     ("GTR", {"motif_length": 2, "mprob_model": "conditional"}),
     ("GN", {"optimise_motif_probs": False}),
     ("JTT92", {"ordered_param": "rate", "distribution": "gamma"}),
+    # codon models built for another genetic code (get_model(name, gc=k)): 2 and 4 read TGA as W (2 also stops at AGA / AGG: 60 states),
+    # 6 reads TAA / TAG as Q (63 states), 12 has the standard stop codons but CTG = S (same 61 states, other silent / replacement classes)
+    ("GY94", {"gc": 2}),
+    ("CNFGTR", {"gc": 4}),
+    ("MG94GTR", {"gc": 6}),
+    ("Y98", {"gc": 12}),
+    ("GNC", {"gc": 2}),
+    ("GY94", {"gc": 1}),
 ]
+# extra alignment columns (one codon per row a, b, c) for the observer of a codon model with a non-standard code: codons that are
+# sense codons only in that code, or whose amino acid differs from the standard code
+GC_EXTRA_CODONS = {
+    1: (("CTG", "CTA", "TCG"),),
+    2: (("TGA", "TGG", "TGA"), ("ATA", "ATG", "ATA")),
+    4: (("TGA", "TGG", "TGA"),),
+    6: (("TAA", "CAA", "TAG"), ("TAG", "TAG", "CAG")),
+    12: (("CTG", "CTA", "TCG"), ("CTG", "TCA", "CTG")),
+}
 CUSTOM_MODELS = ["tr-nuc-predicates", "tr-nuc-kappa-only", "tr-dinuc", "ns-nuc", "tr-protein-predicate"]
 
 
@@ -1633,7 +1667,19 @@ def _custom_model(which):
     return substitution_model.TimeReversibleProtein(predicates=[MotifChange("A", "G")], name="prot")
 
 
-def model_observer(protein, bins):
+GC_PROBE_CODONS = [a + b + c for a in "TCAG" for b in "TCAG" for c in "TCAG"]
+
+
+def _observe_code(sm):
+    """codon models: the genetic code that defines the states and the silent / replacement classes, and the states"""
+    code = getattr(sm, "gc", None)
+    return {"code": None if code is None else [code.ID, code.name, "".join(code[c] for c in GC_PROBE_CODONS)], "motifs": list(sm.get_motifs())}
+
+
+GC_GATE = [("genetic-code", _observe_code)]
+
+
+def model_observer(protein, bins, gc=None):
     def obs(sm):
         from cogent3 import make_aligned_seqs, make_tree
 
@@ -1641,7 +1687,10 @@ def model_observer(protein, bins):
         if protein:
             aln = make_aligned_seqs({"a": "MAKPLV", "b": "MAKPIV", "c": "MDKPLV"}, moltype="protein")
         else:
-            aln = make_aligned_seqs({"a": "ATGGCTAAACCC", "b": "ATGGCAAAGCCC", "c": "ATGGATAAACCG"}, moltype="dna")
+            rows = {"a": "ATGGCTAAACCC", "b": "ATGGCAAAGCCC", "c": "ATGGATAAACCG"}
+            for col in GC_EXTRA_CODONS.get(gc, ()):
+                rows = {n: r + c for (n, r), c in zip(rows.items(), col)}
+            aln = make_aligned_seqs(rows, moltype="dna")
         lf = sm.make_likelihood_function(tree, bins=bins) if bins else sm.make_likelihood_function(tree)
         lf.set_alignment(aln)
         names = sorted(p for p in lf.get_param_names() if p not in ("length", "mprobs", "psubs", "bprobs", "rate"))
@@ -1679,13 +1728,23 @@ def exec_model(case) -> Soft:
     if not ok:
         return s
     bins = 2 if kw.get("ordered_param") else None
-    observers = model_observer(protein, bins)
+    gc = kw.get("gc")
+    observers = model_observer(protein, bins, gc)
     want = observe(sm, observers)
     if isinstance(want["model"], Unobs):
         s.cls("original-unobservable")
         return s
     routes = ("json", "pickle") if family == "codon" else ROUTES
-    round_trips(s, "model", sm, observers, f"{case}", routes=routes, rtol=1e-12, atol=1e-14, want=want)
+    sig = "model"
+    if gc is not None:
+        # circumstance tag: a codon model built with an explicit genetic code; every route, copies included
+        routes = ROUTES + ("copy", "deepcopy")
+        sig = "model/gc"
+        s.cls(f"genetic-code:{gc}")
+        built = _observe_code(sm)["code"]
+        if built is None or built[0] != gc:
+            raise HarnessError(f"{case}: the model was not built with genetic code {gc}: {built}")
+    round_trips(s, sig, sm, observers, f"{case}", routes=routes, rtol=1e-12, atol=1e-14, want=want, gate=GC_GATE if gc is not None else None)
     s.cls("family:" + family.split(":")[0], "variant" if kw else "default")
     s.nontrivial = bool(kw)
     return s
@@ -1930,9 +1989,22 @@ def lf_family_spec(draw):
         a, b = nodes.pop(i), nodes.pop(i)
         nodes.append(["e0", draw(st.floats(0.01, 0.5)), [a, b]])
     L = draw(st.integers(3, 8))
-    pool = draw(st.lists(st.sampled_from(SENSE_CODONS), min_size=2, max_size=6)) if family == "codon" else list(AMINO_ACIDS)
+    gc = draw(st.sampled_from([None, None, 2, 4, 6, 12])) if family == "codon" else None
+    if gc is not None:
+        # get_model(name, gc=k): the states are the sense codons of code k; the alignment holds at least one codon that is a
+        # sense codon only in that code (or, for code 12, one whose amino acid differs from the standard code)
+        from vlib.ncbi_codes import CODES
+
+        table, std = dict(zip(GC_PROBE_CODONS, CODES[gc][1])), dict(zip(GC_PROBE_CODONS, CODES[1][1]))
+        sense = [c for c in GC_PROBE_CODONS if table[c] != "*"]
+        special = [c for c in sense if std[c] == "*"] or [c for c in sense if std[c] != table[c]]
+        pool = draw(st.lists(st.sampled_from(sense), min_size=2, max_size=5)) + [draw(st.sampled_from(special))]
+    else:
+        pool = draw(st.lists(st.sampled_from(SENSE_CODONS), min_size=2, max_size=6)) if family == "codon" else list(AMINO_ACIDS)
     gap = "---" if family == "codon" else "-"
     base = [draw(st.sampled_from(pool)) for _ in range(L)]
+    if gc is not None:
+        base[draw(st.integers(0, L - 1))] = pool[-1]
     aln = {}
     for nm in names:
         row = [(gap if draw(st.integers(0, 5)) == 0 else draw(st.sampled_from(pool))) if draw(st.integers(0, 3)) == 0 else ch for ch in base]
@@ -1945,7 +2017,7 @@ def lf_family_spec(draw):
         ops.append({"kind": kind, "a": draw(st.integers(0, 1000)), "b": draw(st.integers(0, 1000)), "mode": draw(st.sampled_from(["const", "init", "indep", "shared", "bounds"])),
                     "val": draw(st.floats(0.2, 5.0)), "w": draw(st.lists(st.integers(1, 9), min_size=4, max_size=4))})
     return {"model": model, "family": family, "moltype": "dna" if family == "codon" else "protein", "variant": variant, "bins": 2, "dist": "gamma", "tree": nodes, "loci": [None],
-            "alns": [aln], "name": draw(st.sampled_from([None, None, "mylf"])), "ops": ops, "omp": draw(st.integers(0, 3)) == 0}
+            "alns": [aln], "name": draw(st.sampled_from([None, None, "mylf"])), "ops": ops, "omp": draw(st.integers(0, 3)) == 0, "gc": gc}
 
 
 def _newick(nodes):
@@ -1968,6 +2040,8 @@ def build_lf(s: Soft, pre: str, spec):
         kw = {"ordered_param": "rate", "distribution": spec["dist"]}
     if spec["omp"] and not discrete:
         kw["optimise_motif_probs"] = True
+    if spec.get("gc") is not None:
+        kw["gc"] = spec["gc"]
 
     family = spec.get("family")
     moltype = spec.get("moltype", "dna")
@@ -2103,7 +2177,8 @@ LF_TOL = dict(rtol=1e-9, atol=1e-12)
 
 def lf_label(spec):
     if spec.get("family"):
-        return spec["family"] + ("-bins" if spec["variant"] == "bins" else "")
+        # circumstance tag: a codon model built with an explicit genetic code (get_model(name, gc=k))
+        return spec["family"] + ("-bins" if spec["variant"] == "bins" else "") + ("-gc" if spec.get("gc") is not None else "")
     if spec["variant"] == "bins":
         return "bins-" + spec["dist"]
     if spec["model"] in ("BH", "DT"):
@@ -2128,7 +2203,19 @@ def exec_lf(case) -> Soft:
         # rebuilding a codon model takes about a second: one copy per route, and the rich-dict route (the JSON route without the
         # text encoding) is left to the cheaper families
         routes = ("json", "pickle") if case["family"] == "codon" else ROUTES
-        round_trips(s, sig, lf, observers, f"{case}", routes=routes, want=want, **LF_TOL)
+        gate = None
+        if case.get("gc") is not None:
+            # every route, and the genetic code of the copy's model is compared before anything else
+            routes = ROUTES + ("deepcopy",)
+            gate = [("genetic-code", lambda f: _observe_code(f.model))]
+            built = _observe_code(lf.model)["code"]
+            if built is None or built[0] != case["gc"]:
+                raise HarnessError(f"the model was not built with genetic code {case['gc']}: {built}")
+            s.cls(f"genetic-code:{case['gc']}")
+            std_sense = set(SENSE_CODONS)
+            if any(r[i : i + 3] not in std_sense and r[i : i + 3] != "---" for r in case["alns"][0].values() for i in range(0, len(r), 3)):
+                s.cls("alignment has a codon that is a stop codon in the standard code")
+        round_trips(s, sig, lf, observers, f"{case}", routes=routes, want=want, gate=gate, **LF_TOL)
         s.cls("family:" + case["family"], "model:" + case["model"], "variant:" + case["variant"], *sorted(flags))
         if case["name"]:
             s.cls("named")
@@ -2490,7 +2577,7 @@ KNOWN_PREDICATES = {}
 
 META = {
     "technique": "Hypothesis-generated objects and pre-serialisation histories; round trip through JSON, rich dict and pickle with type specific observational equality (plus a string model for sequences and collections)",
-    "level_text": "Per run several thousand generated objects of the registered serialisable types (and of the profile array classes that app results name as members) are brought into a non-fresh state (sliced, strided, reverse complemented, annotated, re-rooted, re-scoped, optimised), observed through harness-written observers, serialised through every route and observed again; alphabets, moltypes, genetic codes and all registered substitution models are enumerated.",
+    "level_text": "Per run several thousand generated objects of the registered serialisable types (and of the profile array classes that app results name as members) are brought into a non-fresh state (sliced, strided, reverse complemented, annotated, re-rooted, re-scoped, optimised), observed through harness-written observers, serialised through every route and observed again; alphabets, moltypes, genetic codes and all registered substitution models (codon models also for non-standard genetic codes) are enumerated.",
     "level_note": "Round-trip oracle: trusts the observers (strings, coordinates, features, parameter tables, lnL) to expose differences; registry keys without a generator are listed as uncovered classes.",
     "design_ref": "DESIGN.md section 1, C10",
 }
